@@ -336,8 +336,14 @@ impl Bundle {
     /// Serialize bundle as CBOR encoded byte buffer.
     pub fn to_cbor(&mut self) -> ByteBuffer {
         self.calculate_crc();
-        let mut bytebuf = serde_cbor::to_vec(&self).expect("Error serializing bundle as cbor.");
-        bytebuf[0] = 0x9f; // TODO: fix hack, indefinite-length array encoding
+        // indefinite-length array: start marker, every block's own encoding, break mark.
+        // (Patching the first byte of the definite-length encoding only works while the
+        // array header is a single byte, i.e. for fewer than 23 canonical blocks.)
+        let mut bytebuf = vec![0x9f];
+        bytebuf.extend(self.primary.to_cbor());
+        for b in &self.canonicals {
+            bytebuf.extend(b.to_cbor());
+        }
         bytebuf.push(0xff); // break mark
         bytebuf
     }
